@@ -3,13 +3,13 @@
     The tree clears the buffer before formatting (or in a drop guard): the statement for the tree under
     check needs no hypothesis on the history — a caught panic during formatting affects no later record.
     (This compiles only when translators/fmtbuf.py finds a repaired policy in fmt_subscriber.rs.) *)
-Theorem C13_one_factory_one_write_no_hypothesis : forall (A M : Type) (l : bool) (es : list (event A M)),
-  snd (run_thread (Cfg Gen_fmtbuf.clear_policy l) [] es) = spec_actions (flat_map (records l) es).
-Proof. intros A M l es. apply panic_safe_when_repaired. vm_compute. discriminate. Qed.
+Theorem C13_one_factory_one_write_no_hypothesis : forall (A M : Type) (unw : M -> list A -> bool) (l : bool) (es : list (event A M)),
+  snd (run_thread unw (Cfg Gen_fmtbuf.clear_policy l) [] es) = spec_actions (flat_map (records l) es).
+Proof. intros A M unw l es. apply panic_safe_when_repaired. vm_compute. discriminate. Qed.
 Print Assumptions C13_one_factory_one_write_no_hypothesis.
 
 Theorem C13_F9_history_is_a_regression_case :
-  snd (run_thread (Cfg Gen_fmtbuf.clear_policy true) [] f9_history)
+  snd (run_thread no_unwind (Cfg Gen_fmtbuf.clear_policy true) [] f9_history)
     = [AMake 1; AWrite 1 [105; 49; 10]; AMake 3; AWrite 3 [99; 51; 10]].
 Proof. apply F9_history_repaired. vm_compute. discriminate. Qed.
 Print Assumptions C13_F9_history_is_a_regression_case.
